@@ -1,12 +1,13 @@
 #!/usr/bin/env python3
 """Development helper: evaluate checks against a seeded change in a *scratch worktree* (does not touch /repo).
 
-usage: tools/seeded_scratch.py <seeded dir> [--only C01,C02] [--seeds 1,2] [--tier quick] [--keep]
+usage: tools/seeded_scratch.py <seeded dir> [--only C01,C02] [--seeds 1,2] [--tier quick] [--keep] [--record]
 
 Creates /tmp/vscratch/<name>/{wt,target,out}: a git worktree of /repo HEAD with the patch applied, a private cargo target
-directory (seeded from /verif/target to get an incremental build) and a private evidence/replay directory.  The official
-record (meta.json "checks"/"caught_by") is still written by tools/seeded_eval.py, which applies the patch to /repo itself;
-this tool only prints, so that several changes can be evaluated in parallel while /repo stays untouched.
+directory (seeded from /verif/target to get an incremental build) and a private evidence/replay directory.  tools/seeded_eval.py does the
+same by applying the patch to /repo itself (and undoing it); this tool leaves /repo untouched so that several changes can be
+evaluated in parallel and while other runs build from /repo.  With --record the outcome is written to meta.json (marked with the
+mode it was obtained in).
 """
 import json, os, re, shutil, subprocess, sys
 V = '/verif'
@@ -32,6 +33,9 @@ def main():
     own = re.sub(r'^R\d', '', name).split('-')[0]
     props = only or [own]
     caught = []
+    record = '--record' in sys.argv
+    meta = json.load(open(os.path.join(d, 'meta.json')))
+    results = meta.setdefault('checks', {})
     for p in props:
         for seed in seeds:
             r = sh('./check', p, '--tier', tier, '--seed', seed, cwd=V, env=env)
@@ -39,8 +43,14 @@ def main():
             viol = re.findall(r'^VIOLATION property=(\S+)', r.stdout, flags=re.M)
             print('%s %s/%s/seed%s exit %d violations %d %s %s' % (name, p, tier, seed, r.returncode, len(viol), sigs[:3],
                   ('BROKEN: ' + r.stdout[-400:]) if r.returncode == 2 else ''), flush=True)
+            if record:
+                results['%s/%s/seed%s' % (p, tier, seed)] = {'exit': r.returncode, 'violations': len(viol), 'signatures': sigs[:8], 'broken': r.returncode == 2,
+                                                             'mode': 'scratch worktree of /repo HEAD + patch (VERIF_REPO)'}
             if viol: caught.append(p); break
     print(name, 'caught by:', sorted(set(caught)))
+    if record:
+        meta['caught_by'] = sorted({k.split('/')[0] for k, v in results.items() if v['violations']})
+        json.dump(meta, open(os.path.join(d, 'meta.json'), 'w'), indent=1)
     if not keep:
         sh('git', '-C', '/repo', 'worktree', 'remove', '--force', wt)
         shutil.rmtree(base, ignore_errors=True)
